@@ -5,11 +5,46 @@ HERE = os.path.dirname(os.path.abspath(__file__))
 
 CHECKS = {
  # id: (engine, category, text, level_note, technique, design_ref)
+ "C01": ("ledger", "model_checking",
+         "Ledger.tla (Valid/Apply over exact BigNat amounts) is model-checked on a small universe (MCLedger: every valid or flawed block in every reachable state; supply invariant). Seeded random histories are run on a real follower visor fed by a real publisher visor; before each valid block the follower is offered mutants (coins created, coins destroyed, zero-coin output among 20 kinds); TLC evaluates every edge {pre, block, verdict, post}: verdict = Valid, post = Apply, and the observed unspent set always sums to the genesis volume.",
+         "Amounts near 2^64 are covered on the helper level (C31) and in the model, not in the real histories (genesis volume 10^14); harness-constructed flags sigOK/bodyOK/sigsOK; TLC/SANY/Json trusted.",
+         "TLA+ spec + TLC exhaustive model checking of the design; record->validate of real visor histories edge by edge by TLC",
+         "DESIGN.md 4.1, 5 C01, 9"),
+ "C02": ("ledger", "model_checking",
+         "Same engine as C01. MCLedger checks unspent = created - spent and the NoDoubleSpend action property on the design. On the real follower every accepted edge must satisfy post.unspent = pre.unspent - inputs + created outputs (ids as the node derives them), new ids must not collide, and blocks that double-spend inside a block, replay a spent output, spend an unknown output or repeat an input must be rejected without changing anything.",
+         "Edges chain (post of one edge is the pre of the next, same observation), so per-edge equality gives created-minus-spent for the whole history; non-arbitrating follower only.",
+         "TLA+ spec + TLC exhaustive model checking of the design; record->validate of real visor histories edge by edge by TLC",
+         "DESIGN.md 4.1, 5 C02, 9"),
+ "C04": ("ledger", "model_checking",
+         "Same engine as C01. For every offered block TLC decides Valid(s, b) from the logged header fields (signature by construction, seq, time, parent hash vs head hash, body hash, checksum vs the node's stored checksum, genesis hash) and compares with the real verdict; an accepted block must be stored with a header hash equal to the offered one and a verifying signature; a rejected block must leave head, unspent set, checksum, pool and history count unchanged.",
+         "Mutants are re-signed with the publisher key (the harness owns it), so the signature check alone cannot mask header checks; the 'valid block rejected' outcome is an infrastructure error, not a C04 verdict.",
+         "TLA+ spec + TLC exhaustive model checking of the design; record->validate of real visor histories edge by edge by TLC",
+         "DESIGN.md 4.1, 5 C04, 9"),
+ "C22": ("wire", "model_checking",
+         "Framing.tla's Step (append a read, extract every complete frame, invalid length disconnects) is model-checked for every split of every small stream into reads (MCFraming: in-order delivery, nothing lost or duplicated, bad length disconnects). The real bytes.Buffer+decodeData loop, convertToMessage and random byte strings are recorded call by call (gnet overlay) and TLC checks every record: delivered frames and remaining buffer per read, whole-stream delivery, dispatch verdicts, no panic, canonical re-encoding.",
+         "convertToMessage is exercised with the overlay's own registered message type (daemon message codecs belong to C21/C25); the timing of a disconnect follows the code (decided once the prefix plus one byte are buffered); TLC/SANY/Json trusted.",
+         "TLA+ spec + TLC exhaustive model checking; record->validate of the real receive path by TLC",
+         "DESIGN.md 4.5, 5 C22, 9"),
+ "C23": ("wire", "model_checking",
+         "Framing.tla defines the longest fitting prefix capped by the item limit (KeptCount) and the sender/receiver length criterion (SendFits); MCTruncate proves the scan form equal to the declarative definition on all small cases. The real NewGiveBlocks/GiveTxns/GivePeers/AnnounceTxns/GetTxns constructors are called with limits placed at prefix boundaries +-1 (item sizes measured with the reflection encoder), and the real sendMessage with lengths around the limit; TLC checks kept count, encoded length and acceptance on every record.",
+         "Item sizes come from the reference encoder (C21 relates it to the generated one); TLC/SANY/Json trusted.",
+         "TLA+ spec + TLC exhaustive model checking; record->validate of the real constructors by TLC",
+         "DESIGN.md 4.5, 5 C23, 9"),
  "C24": ("conn", "model_checking",
          "Connections.tla is model-checked over its complete state space for the stated constants (26 800 states); the real daemon.Connections is explored breadth-first (every call of the alphabet in every reachable implementation state) and TLC checks every recorded edge against the specification's own actions and every state against the derived-map definitions; TLC-simulated behaviours are replayed on the real object.",
          "Assumes gnet's id uniqueness among live connections and non-zero remote ports; bounded alphabet (2 IPs x 2 ports, mirrors {0,7}, listen ports {0,6000}, ids 0..3); TLC/SANY/Json module trusted.",
          "TLA+ spec + TLC exhaustive model checking; implementation-side explicit-state search validated edge by edge by TLC (trace validation), plus TLC-generated behaviours replayed into the real object",
          "DESIGN.md 4.4, 5 C24"),
+ "C29": ("fn", "model_checking",
+         "Fn.tla defines page bounds over exact naturals; MCPaging walks pages 1..N+2 for every list length <= 25 and page size <= 7 and checks that they concatenate to the list exactly once, that N is the reported count and later pages are empty. The real PageIndex.Cal and txnHashesContainer.Pagination (de-duplicated lists, page numbers up to 2^64-1 including wrap-around values) are recorded and TLC checks every record against the same definitions.",
+         "The filter/sort steps before paging are not modelled (ordering and de-duplication are taken from the container); TLC/SANY/Json trusted.",
+         "TLA+ definitions + TLC model checking; record->validate by TLC over BigNat",
+         "DESIGN.md 4.10, 5 C29, 9"),
+ "C31": ("fn", "exploration",
+         "Fn.tla states each helper as the mathematical value over exact naturals (BigNat.tla, itself checked against TLC integers) plus 'fits in 64 bits'; the real AddUint64, MultUint64, AddUint32, the conversions, RequiredFee, RemainingHours, VerifyTransactionFeeForHours and UxOut.CoinHours are called on boundary-placed and random arguments and TLC evaluates the definition on every record.",
+         "Sampling, not proof: a pure function over 2^128 arguments; boundary classes are listed in the evidence rule; TLC/SANY/Json trusted.",
+         "TLA+ definitions (executable specification) evaluated by TLC on recorded calls of the real functions",
+         "DESIGN.md 4.10, 5 C31, 9"),
 }
 
 NOT_APPLICABLE = {
